@@ -270,11 +270,9 @@ def msLoop (c sz : Nat) (j added : Nat) : Nat → List Slot
   | 0 => []
   | k + 1 => if added < sz then Slot.frac j c :: msLoop c sz (j + 1) (added + 1) k else []
 
-/-- `getMotionStates`.  `size` is `states.size()` on entry.  `count++` is 32-bit unsigned: the callers
-that pass `validSegmentCount - 1` rely on `UINT_MAX + 1 = 0` for identical states.  (Assumption: apart
-from that wrap, `count + 2 < 2^32`.) -/
-def getMotionStates (count : Nat) (endpoints alloc : Bool) (size : Nat) : MSResult :=
-  let c := (count + 1) % 4294967296
+/-- the body of `getMotionStates` after `count++` (`c` is the incremented, wrapped count = the
+number of segments).  `size` is `states.size()` on entry. -/
+def getMotionStatesC (c : Nat) (endpoints alloc : Bool) (size : Nat) : MSResult :=
   if c < 2 then
     if endpoints then
       let sz := if alloc then 2 else size
@@ -287,6 +285,15 @@ def getMotionStates (count : Nat) (endpoints alloc : Bool) (size : Nat) : MSResu
     let added := w0.length + w1.length
     let w2 := if decide (added < sz) && endpoints then [Slot.goal] else []
     ⟨w0 ++ w1 ++ w2, sz⟩
+
+/-- `count++` on a 32-bit unsigned: the callers that pass `validSegmentCount - 1` rely on
+`UINT_MAX + 1 = 0` for identical states. -/
+def segmentsOf (count : Nat) : Nat := (count + 1) % 4294967296
+
+/-- `getMotionStates(s1, s2, states, count, endpoints, alloc)`.  (Assumption: apart from the
+`UINT_MAX` wrap, `count + 2 < 2^32`.) -/
+def getMotionStates (count : Nat) (endpoints alloc : Bool) (size : Nat) : MSResult :=
+  getMotionStatesC (segmentsOf count) endpoints alloc size
 
 /-- everything the call would write into an unbounded vector: `[s1]`, the `c - 1` interior points
 `j/c`, `[s2]` (end points only if asked for). -/
